@@ -1,16 +1,36 @@
-"""Per-property registration used by `check` (harness module, evidence level, assumptions)."""
+"""Per-property registration: used by `check` (harness module, evidence level,
+assumptions) and by tools/mkmanifest.py (MANIFEST.json is generated from this)."""
 
 COMMON_ASSUMPTIONS = [
     "each numba kernel computes what its hand-written Lean model computes: sampled bit-exactly on generated inputs on every run, not proved",
     "Lean 4.33.0 kernel; theorems may use only propext, Classical.choice, Quot.sound (audited with #print axioms on every run)",
-    "float32 priorities are totally ordered (no NaN reaches a heap)",
 ]
+TB = "trusted: Lean kernel + {propext, Classical.choice, Quot.sound}; "
 
 PROPS = {
     "C11": {
-        "harness": "c11", "level": "proof",
-        "explanation": "theorems topk_checked/topk_simple/deheapSort_spec over every heap size, linear order, offer sequence; "
-                       "model tied to utils.*_heap_push/deheap_sort by bit-exact comparison after every single operation",
-        "assumptions": COMMON_ASSUMPTIONS + ["uint16 loop counters in the kernels: rows shorter than 65536 slots"],
+        "harness": "c11", "level": "proof", "category": "proof", "design_ref": "DESIGN.md 5/C11, 4.1",
+        "technique": "Lean 4 proof (invariant by induction over offer sequences) + bit-exact differential correspondence",
+        "text": "Lean theorems topk_checked, topk_simple, push_accept_perm, push_reject_id, deheapSort_spec about a literal model of the "
+                "three push kernels and deheap_sort, for every heap size, linear order and offer sequence; the model is tied to the numba "
+                "kernels by bit-exact comparison after every single operation on generated sequences, and the property predicate is "
+                "evaluated on the real kernels' output",
+        "note": TB + "the sampled bit-exact correspondence between the Lean model and utils.py; float32 priorities without NaN; rows < 65536 slots",
+        "explanation": "theorems over every heap size / linear order / offer sequence; correspondence after every single push and after deheap_sort",
+        "assumptions": COMMON_ASSUMPTIONS + ["float32 priorities are totally ordered (no NaN reaches a heap)",
+                                             "uint16 loop counters in the kernels: rows shorter than 65536 slots"],
+    },
+    "C19": {
+        "harness": "c19", "level": "proof", "category": "proof", "design_ref": "DESIGN.md 5/C19, 2.3",
+        "technique": "Lean 4 proof (soundness of an exception-flow checker) + decide over a skeleton regenerated from the source + fault sequences on the real API",
+        "text": "translate_threads.py regenerates, on every run, the exception-flow skeleton of every function in the package that calls "
+                "numba.set_num_threads; Lean proves once that a skeleton accepted by `safe` restores the count on every exit (normal, return, "
+                "exception at any may-raise point) and `decide`s `safe` on today's skeletons; the real constructor/prepare are run through every "
+                "listed failure mode and n_jobs value and the thread count is compared before/after",
+        "note": TB + "the translator (ast walk, conservative: unknown constructs are never safe); numba.set_num_threads(original) itself does not raise; "
+                     "the thread count is only changed through numba.set_num_threads",
+        "explanation": "general theorem safe_sound + decide on Gen/ThreadFlow.lean; API fault sequences with recorded set_num_threads calls",
+        "assumptions": ["the only way the package changes the thread count is numba.set_num_threads (grep'd by the translator over all modules)",
+                        "restoring with the saved entry value does not raise"],
     },
 }
